@@ -1,4 +1,5 @@
 import Driver.Machine
+import Driver.Persist
 import CrdtModel.Spec.VClock
 namespace Driver
 open Crdt
@@ -23,6 +24,8 @@ def vclockOps : CrdtOps (VClock Nat) (Dot Nat) where
   validateMerge := fun _ _ => "ok"
   resetRemove := some VClock.resetRemove
   eq := some (fun a b => some (decide (a = b)))
+  persist := some (persistWith (clockCodec natK))
+  persistOp := some (persistWith (dotCodec natC))
   spec := fun _ K => "clock=" ++ showClock (VClockSpec.ofFun (K.map (·.actor)) (fun a => K.foldl (fun m d => if d.actor = a then max m d.counter else m) 0))
 
 /-- Rust `<=` on clocks (`PartialOrd::le`) -/
